@@ -144,9 +144,11 @@ def gen_scalar(rng, name):
         coef = rng.randint(1, 10 ** digits - 1) * rng.choice([1, -1])
         scale = rng.randint(-20, 20)
         v = rng.choice([Decimal(coef).scaleb(scale), Decimal("0"), Decimal("1.50"), Decimal("-0.001"), Decimal(rng.randint(-10 ** 6, 10 ** 6)),
-                        Decimal("1E+3"), Decimal("9007199254740993"), Decimal("0.1")])
+                        Decimal("1E+3"), Decimal("9007199254740993"), Decimal("0.1"),
+                        # few digits, extreme magnitude (beyond what the default decimal context can hold after arithmetic)
+                        Decimal("1E+1000000"), Decimal("-2.5E+1000001"), Decimal("7E-2000000"), Decimal("12345E+999995")])
         e = v.as_tuple().exponent
-        return v, "Decimal:" + ("unsafe" if abs(v) > 2 ** 53 else "exp+" if e > 0 else "int" if e == 0 else "frac")
+        return v, "Decimal:" + ("unsafe" if (v > 2 ** 53 or v < -(2 ** 53)) else "exp+" if e > 0 else "int" if e == 0 else "frac")
     if name == "date":
         return rng.choice([dt.date.min, dt.date.max, dt.date(2020, 2, 29), dt.date(1969, 12, 31), dt.date(rng.randint(1, 9999), rng.randint(1, 12), rng.randint(1, 28))]), "date"
     if name == "datetime":
@@ -360,7 +362,7 @@ def trait_of(name, v):
         return "timedelta:" + ("negative" if v < dt.timedelta(0) else "positive") + (":us" if v.microseconds else "")
     if name == "Decimal":
         e = v.as_tuple().exponent
-        return "Decimal:" + ("unsafe" if abs(v) > 2 ** 53 else "exp+" if e > 0 else "int" if e == 0 else "frac")
+        return "Decimal:" + ("unsafe" if (v > 2 ** 53 or v < -(2 ** 53)) else "exp+" if e > 0 else "int" if e == 0 else "frac")
     if name == "int":
         return "int:" + ("big" if abs(v) > 2 ** 53 else "small")
     return name
